@@ -338,6 +338,103 @@ theorem flowFromNld_lines_indented (l : Str) : startsWith (indentLine l) (lit " 
 theorem postValueV2_total (p : Parser) (lastPromptLine out : Str) : ∃ v, postValueV2 p lastPromptLine out = .ok v :=
   postValueV2_ok p lastPromptLine out
 
+/-! ## Phase 4 — multi-step generation with the try/except structure: the parser is an oracle that may raise ANYTHING
+
+FULL statement (not provable, false of the code — see the two counterexamples):
+  `∀ parse nextSteps cont p flowId out history, ∃ l, multiStepTurn parse nextSteps cont p flowId out history = .ok l ∧ lastEv l = some .listen`
+What is proved: no behaviour of the PARSER can make the turn raise (`…_contains_parser`, `multi_step_error_sources`); the turn
+raises only when `compute_next_steps` / a later step raises or the 100-event safety valve fires; if the step oracles are total the
+outcome is a non-empty event list ending in `Listen` or the safety valve (`multi_step_never_raises_partial`). -/
+
+/-- `_process_start_flow`: an exception can leave only when the parser RETURNED exactly the one expected flow and
+    `_compute_next_steps` raised it; whatever the parser raises is contained. -/
+theorem process_start_flow_contains_parser {ε δ : Type} (parse : ParseOracle ε) (nextSteps : Str → Except δ (List Ev))
+    (flowId body : Str) (d : δ) (h : processStartFlowE parse nextSteps flowId body = .error d) :
+    parse (dynamicFlowSource flowId body) = .ok [flowId] ∧ nextSteps (dynamicFlowSource flowId body) = .error d :=
+  processStartFlowE_error parse nextSteps flowId body d h
+
+/-- … and in every other case (parser raised anything, returned no flow, several flows, a flow with another id) the result is the
+    fallback `BotIntent general response`. -/
+theorem process_start_flow_fallback {ε δ : Type} (parse : ParseOracle ε) (nextSteps : Str → Except δ (List Ev))
+    (flowId body : Str) (h : parse (dynamicFlowSource flowId body) ≠ .ok [flowId]) :
+    processStartFlowE parse nextSteps flowId body = .ok [.botIntent generalResponse] := by
+  rcases processStartFlowE_cases parse nextSteps flowId body with ⟨hp, _⟩ | ⟨_, he⟩
+  · exact absurd ((tryPassed_iff parse flowId _).1 hp) h
+  · exact he
+
+example : (fun (_ : Str) => (Except.error PyErr.indexError : Except PyErr (List Str))) (lit "x") ≠ .ok [lit "f"] := by simp
+
+/-- the repaired function refines the phase-2 model (`parsesFlow` := "the try block passed") when the step oracle is total -/
+theorem process_start_flow_refines {ε : Type} (parse : ParseOracle ε) (nextSteps : Str → List Ev) (flowId body : Str) :
+    processStartFlowE (δ := Empty) parse (fun s => .ok (nextSteps s)) flowId body =
+      .ok (processStartFlow (fun src => match processStartFlowTry parse flowId src with | .passed => true | _ => false)
+            nextSteps flowId body) := by
+  unfold processStartFlowE processStartFlow
+  cases h : processStartFlowTry parse flowId (dynamicFlowSource flowId body) <;> simp [h]
+
+/-- `generate_events`: every way the loop can end -/
+theorem generate_events_outcomes {δ : Type} (step : List Ev → Except δ (List Ev)) (events : List Ev) :
+    (∃ l, generateEvents step events = .ok l ∧ l ≠ [] ∧ lastEv l = some .listen)
+    ∨ generateEvents step events = .error .tooManyEvents
+    ∨ (∃ evs e, step evs = .error e ∧ generateEvents step events = .error (.raised e)) :=
+  genLoop_spec step 102 events []
+
+/-- the fuel of the model is not an artefact: `tooManyEvents` is reported only when more than 100 events were appended -/
+theorem generate_events_too_many_is_real {δ : Type} (step : List Ev → Except δ (List Ev)) (events : List Ev)
+    (h : generateEvents step events = .error .tooManyEvents) : ∃ appended : List Ev, appended.length > 100 := by
+  obtain ⟨extra, hx⟩ := genLoop_tooMany_real step 102 events [] (by simp) h
+  exact ⟨extra, by simpa using hx⟩
+
+/-- **multi_step_error_sources**: for EVERY parser behaviour, an exception that leaves the multi-step turn is the safety valve or
+    was raised by `compute_next_steps` on a flow the parser accepted, or by a later step — never by the parser. -/
+theorem multi_step_error_sources {ε δ : Type} (parse : ParseOracle ε) (nextSteps : Str → Except δ (List Ev))
+    (cont : List Ev → Except δ (List Ev)) (p : Parser) (flowId out : Str) (history : List Ev) (x : GenErr δ)
+    (h : multiStepTurn parse nextSteps cont p flowId out history = .error x) :
+    x = .tooManyEvents ∨ ∃ d, x = .raised d ∧ ((∃ s, parse s = .ok [flowId] ∧ nextSteps s = .error d) ∨ ∃ evs, cont evs = .error d) := by
+  unfold multiStepTurn at h
+  rcases generate_events_outcomes (stepMS parse nextSteps cont flowId) (history ++ [multiStepNextStep (parsesTopOf parse) p out])
+    with ⟨l, hl, _⟩ | ht | ⟨evs, e, hs, hr⟩
+  · rw [hl] at h; cases h
+  · rw [ht] at h; left; cases h; rfl
+  · rw [hr] at h; right; cases h
+    refine ⟨e, rfl, ?_⟩
+    rcases stepMS_error parse nextSteps cont flowId evs e hs with hns | hc
+    · exact Or.inl hns
+    · exact Or.inr ⟨evs, hc⟩
+
+/-- **multi_step_never_raises (partial)**: hypotheses = the two step oracles are total (excludes exactly the open finding
+    `escape:multi_step:generated-flow-expression`); conclusion for EVERY parser behaviour and every completion: the turn ends
+    with a non-empty list of events whose last one is `Listen`, or with the safety valve (open finding
+    `escape:multi_step:generate_events:too-many-events`). -/
+theorem multi_step_never_raises_partial {ε δ : Type} (parse : ParseOracle ε) (nextSteps : Str → Except δ (List Ev))
+    (cont : List Ev → Except δ (List Ev)) (hns : ∀ s, ∃ l, nextSteps s = .ok l) (hc : ∀ evs, ∃ l, cont evs = .ok l)
+    (p : Parser) (flowId out : Str) (history : List Ev) :
+    (∃ l, multiStepTurn parse nextSteps cont p flowId out history = .ok l ∧ l ≠ [] ∧ lastEv l = some .listen)
+    ∨ multiStepTurn parse nextSteps cont p flowId out history = .error .tooManyEvents := by
+  rcases generate_events_outcomes (stepMS parse nextSteps cont flowId) (history ++ [multiStepNextStep (parsesTopOf parse) p out])
+    with h | h | ⟨evs, e, hs, _⟩
+  · exact Or.inl h
+  · exact Or.inr h
+  · rcases stepMS_error parse nextSteps cont flowId evs e hs with ⟨s, _, h1⟩ | h2
+    · obtain ⟨l, hl⟩ := hns s; rw [hl] at h1; cases h1
+    · obtain ⟨l, hl⟩ := hc evs; rw [hl] at h2; cases h2
+
+/-- non-vacuity: total step oracles exist, and with them a raising parser gives the fallback turn `[BotIntent general response]`
+    followed by what `cont` does -/
+example : multiStepTurn (ε := Unit) (δ := Empty) (fun _ => .error ()) (fun _ => .ok []) (fun _ => .ok [.listen])
+    .none (lit "f") (lit "bot x") [] = .ok [.listen] := by rfl
+
+/-- counterexample 1 (open finding `escape:multi_step:generated-flow-expression`): the parser accepts `$x = x`, the evaluation
+    of the expression raises inside `compute_next_steps`, outside every try: the exception leaves `generate_events`. -/
+theorem multi_step_expression_error_as_is_counterexample :
+    multiStepTurn (ε := Unit) (δ := Unit) (fun _ => .ok [lit "f"]) (fun _ => .error ()) (fun _ => .ok [])
+      .none (lit "f") (lit "$x = x") [] = .error (.raised ()) := by rfl
+
+/-- counterexample 2 (open finding `escape:multi_step:generate_events:too-many-events`): steps that never reach `Listen`. -/
+theorem multi_step_too_many_events_as_is_counterexample :
+    (match multiStepTurn (ε := Unit) (δ := Unit) (fun _ => .error ()) (fun _ => .ok []) (fun _ => .ok [.step 0])
+      .none (lit "f") (lit "bot x") [] with | .error .tooManyEvents => true | _ => false) = true := by decide +kernel
+
 /-! ## Phase 2 — the dataflow theorem over GENERATED data
 
 `Generated/C17Dataflow.lean` is the IR of every function of generation.py (1.0), generation.py (2.x) and taskmanager.py that
